@@ -51,6 +51,14 @@ CLAIMS = {
         "Known finding F1 (two noise sources on one stream) is reported, not suppressed for other inputs.",
    note="trusted: pyvc engine; numpy Generator stream-splitting axiom (probed natively); real-mode time grid; cos uninterpreted; source loops unrolled for 2 noise + 3 signal sources",
    technique="contract-based deductive verification (AST->z3 VCs with ghost generator stream); bounded native replay"),
+ 'C15': dict(cat='proof', ref='DESIGN.md 2/C15',
+   text="MultiAntennaArray.__init__/get_samples/set_time/add_time/reset_start are executed symbolically for 1-3 antennas x 1-2 polarisations with "
+        "symbolic delays, request sizes and stream contents: for the first request and for a later request from an ARBITRARY state satisfying "
+        "the cache invariant (N samples delivered, caches = last delay_i background samples) every output sample equals own(N+k) + "
+        "background(N+k+max_delay-delay_i), the invariant is re-established (so every request sequence is covered by induction), omitted "
+        "delays mean zero, and resetting clears the carried-over background. Bounded native run compares with a same-seed reference background.",
+   note="trusted: pyvc engine; ghost generator stream model; antenna count enumerated 1..3 (stated, not hidden); one noise + one signal source per stream",
+   technique="contract-based deductive verification (Hoare triples with a two-state cache invariant, ghost stream positions); bounded native replay"),
 }
 NA_REASON = "not yet built in this session (see DESIGN.md build order)"
 
